@@ -28,6 +28,16 @@ CLAIMED = {
                   "must return Err (Kani proves no panic/abort reachable), Err only when the OS refused, and after dropping everything the C14/C15 end-state predicates hold.",
              ref="DESIGN.md 5/C19",
              technique="Kani->CBMC bounded model checking with a fault-injecting ghost mlock; replay with an LD_PRELOAD mlock interposer"),
+ "C17": dict(text="Bounded model checking of every classic open that writes into a caller buffer (secretbox/box easy, detached, in-place, afternm, sealed; stream pull) with symbolic key, nonce/stream state, ciphertext, "
+                  "presented tag and previous buffer contents, Poly1305 replaced by an ideal MAC whose symbolic output differs from the presented tag: the solver shows Err, every output byte is as it was or zero, the stream tag output "
+                  "and the stream state are untouched. Literal message lengths. Right level: the leak depends on key-dependent keystream bytes, which a solver is free to choose, and on the order of two statements.",
+             ref="DESIGN.md 5/C17", technique="Kani->CBMC bounded model checking with an ideal-MAC stub (A-type assertions, symbolic keys through the real stream ciphers); native replay"),
+ "C04": dict(text="Bounded model checking of panic-/overflow-/OOB-freedom: Kani instruments every panic, unwrap/expect, arithmetic overflow and index in the compiled code; each opening/parsing/verifying entry point is run on a "
+                  "buffer of literal length L (every boundary around the fixed overheads) with fully symbolic contents, keys and stream state, ideal MAC with arbitrary output (both verdicts), plus authentic stream messages with all 256 tag bytes.",
+             ref="DESIGN.md 5/C04", technique="Kani->CBMC bounded model checking of Kani's built-in panic/overflow/bounds checks over symbolic untrusted buffers; native replay with catch_unwind"),
+ "C11": dict(text="Bounded model checking with the OS generator replaced by an oracle (fresh symbolic array per call): for each randomised entry point the returned key/nonce/header/salt/seed equals this call's oracle output over its whole "
+                  "length, public keys are the base-point image of the fresh secret, sealed boxes use the fresh ephemeral secret, password hashing feeds the fresh salt to Argon2 and to the encoder, and a second call draws a new array.",
+             ref="DESIGN.md 5/C11", technique="Kani->CBMC bounded model checking with an RNG-oracle stub (randomness as a symbolic input); native replay by calling twice"),
 }
 NA = {
  "C18": "Backends in question are assembly (sha2/asm), run-time-selected vendor intrinsics (dalek AVX2) and std::simd; none has a MIR/GOTO encoding Kani accepts and the two BLAKE2b compress variants are mutually exclusive cfg alternatives; see DESIGN.md section 6.",
